@@ -86,6 +86,7 @@ Theorem C10_vm_splitn : forall cs bs e p, VmScope cs bs e p ->
                       (if k' <=? length (vm_matches cs p ng max_st limit fuelv)
                        then [pc_slice (concat cs) (start_after (concat cs) 0 (vm_matches cs p ng max_st limit fuelv) k') (length (concat cs))] else [])
             end).
+From FR Require Import ApiTotal.
 Proof. intros cs bs e p (W & Hl & Hc & Ho & Hr & Hk) ng max_st limit fuelv Hnf k n Hne. eapply vm_splitn; eauto. Qed.
 
 Print Assumptions C10_matches_exist.
@@ -97,3 +98,22 @@ Print Assumptions C10_splitn.
 Print Assumptions C10_vm_split_pieces.
 Print Assumptions C10_vm_rebuild.
 Print Assumptions C10_vm_splitn.
+
+(* split over a VM-compiled regex, with no assumption on the model's step budget: from some budget
+   on, the pieces are exactly the text between the matches of the compiled search, and no piece
+   computation panics *)
+Theorem C10_vm_split_total : forall cs bs e p, VmScope cs bs e p ->
+  forall ng max_st limit, exists n0, forall fuelv, n0 <= fuelv ->
+  forall n, split_collect (concat cs) (vsearch cs p ng max_st limit fuelv) n sp_init =
+            firstn n (pieces (concat cs) 0 (vm_matches cs p ng max_st limit fuelv)) /\
+            Forall (fun pc => pc <> PcPanic) (split_collect (concat cs) (vsearch cs p ng max_st limit fuelv) n sp_init).
+Proof.
+  intros cs bs e p HS ng max_st limit. destruct (vm_api_total cs bs e p HS ng max_st limit) as [n0 H].
+  exists n0. intros fuelv Hf n. destruct (H fuelv Hf) as (_ & Hsp & _). exact (Hsp n).
+Qed.
+Check C10_vm_split_total : forall cs bs e p, VmScope cs bs e p ->
+  forall ng max_st limit, exists n0, forall fuelv, n0 <= fuelv ->
+  forall n, split_collect (concat cs) (vsearch cs p ng max_st limit fuelv) n sp_init =
+            firstn n (pieces (concat cs) 0 (vm_matches cs p ng max_st limit fuelv)) /\
+            Forall (fun pc => pc <> PcPanic) (split_collect (concat cs) (vsearch cs p ng max_st limit fuelv) n sp_init).
+Print Assumptions C10_vm_split_total.
